@@ -27,7 +27,8 @@ RULE = ("Market states are constructed through the calls the simulator makes (se
         "target's market price), distance = fundamental * spread. (arb) nothing unless index and all components run and |index "
         "price - index value| > threshold; then one index order of n*v against n component orders of v on the opposite side at "
         "the respective market prices. All: own agent id, accessible market, volume >= 1, positive price, documented ttl.")
-ASSUMPTIONS = ["fundamental prices lie within [0.6, 1.6] x the initial market price and traded prices move by at most 10% per step (a market maker quote fundamental*spread/2 below its base price stays positive)",
+ASSUMPTIONS = ["the markets a market maker can access are venues of one asset (equal initial price), as in the market_share sample",
+               "fundamental prices lie within [0.6, 1.6] x the initial market price and traded prices move by at most 10% per step (a market maker quote fundamental*spread/2 below its base price stays positive)",
                "FCN weights are 0 or >= 0.01 (their sum is inverted; subnormal sums overflow and are not admissible parameters)",
                "agents can access every market they are configured to act on (index and all components; the maker's target)",
                "index components have equal outstanding shares (the arbitrage agent documents this requirement)"]
@@ -47,10 +48,12 @@ def _call(fn, *a, **k):
 
 
 @st.composite
-def states(draw, n_markets=(1, 3), index=False, max_steps=30, with_quotes=True):
+def states(draw, n_markets=(1, 3), index=False, max_steps=30, with_quotes=True, same_asset=False):
     n = draw(st.integers(*n_markets))
     ticks = [draw(st.sampled_from([1.0, 0.5, 0.01, 1e-5])) for _ in range(n)]
     p0 = [draw(st.sampled_from([100.0, 300.0, 55.5])) for _ in range(n)]
+    if same_asset:
+        p0 = [p0[0]] * n  # several venues of one asset (what a market maker with several accessible markets quotes across)
     T = draw(st.integers(0, max_steps))
     steps = []
     for _ in range(T + 1):
@@ -314,7 +317,7 @@ def msfcn_check(case):
 
 @st.composite
 def maker_cases(draw, tier):
-    state = draw(states(n_markets=(1, 3), max_steps=8))
+    state = draw(states(n_markets=(1, 3), max_steps=8, same_asset=True))
     return {"state": state, "spread": draw(st.sampled_from([0.0, 0.01, 0.02, 0.1]) | st.floats(0.0, 0.3)), "ttl": draw(st.one_of(st.none(), st.integers(1, 9))),
             "target": draw(st.integers(0, 2)), "access_all": draw(st.booleans()), "agent_seed": draw(st.integers(0, 1000))}
 
